@@ -261,6 +261,90 @@ fn run_rtarget(seed: &str, target: &str, allow: &str, steps: &str, calls: &str) 
     out.join(",")
 }
 
+#[track_caller]
+fn here() -> &'static Location<'static> {
+    Location::caller()
+}
+
+/// urw <seed> <iters> <tasks id:parent|-:loc:sig:psig,...> <calls E | U | T:<id.id.id>>
+/// Every E rebuilds the tasks in id order (signatures come from TaskSignature::new_parentless / new_child at three call
+/// sites, so a task has the same signature in every execution); the sig / psig fields of the case are the model's keys.
+fn run_urw(seed: &str, iters: &str, tasks: &str, calls: &str) -> String {
+    let locs = [here(), here(), here()];
+    // (parent, loc)
+    let spec: Vec<(Option<usize>, usize)> = tasks
+        .split(',')
+        .map(|w| {
+            let f: Vec<&str> = w.split(':').collect();
+            (if f[1] == "-" { None } else { Some(f[1].parse().unwrap()) }, f[2].parse::<usize>().unwrap() % 3)
+        })
+        .collect();
+    let build = || -> Vec<Task> {
+        let mut sigs: Vec<TaskSignature> = Vec::new();
+        for (par, loc) in spec.iter() {
+            let s = match par {
+                None => TaskSignature::new_parentless(locs[*loc]),
+                Some(p) => sigs[*p].new_child(locs[*loc]),
+            };
+            sigs.push(s);
+        }
+        sigs.into_iter()
+            .enumerate()
+            .map(|(i, s)| {
+                let zeros = vec![0u32; i + 1];
+                Task::from_closure(
+                    Box::new(|| {}),
+                    0x8000,
+                    TaskId::from(i),
+                    None,
+                    VectorClock::from(&zeros[..]),
+                    None,
+                    0,
+                    None,
+                    spec[i].0.map(TaskId::from),
+                    s,
+                )
+            })
+            .collect()
+    };
+    let mut sched = shuttle_schedulers::UrwRandomScheduler::new_from_seed(seed.parse().unwrap(), iters.parse().unwrap());
+    let mut tasks_now: Vec<Task> = build();
+    let mut out: Vec<String> = Vec::new();
+    for c in calls.split(',') {
+        let r = catch_unwind(AssertUnwindSafe(|| {
+            if c == "E" {
+                tasks_now = build();
+                match sched.new_execution() {
+                    None => "eN".to_string(),
+                    Some(s) => format!("e{}", s.seed),
+                }
+            } else if c == "U" {
+                format!("u{}", sched.next_u64())
+            } else {
+                let refs: Vec<&Task> = c[2..].split('.').map(|x| &tasks_now[x.parse::<usize>().unwrap()]).collect();
+                match sched.next_task(&refs, None, false) {
+                    Some(t) => format!("t{}", usize::from(t)),
+                    None => "x".to_string(),
+                }
+            }
+        }));
+        match r {
+            Ok(s) => {
+                let stop = s == "eN";
+                out.push(s);
+                if stop {
+                    break;
+                }
+            }
+            Err(_) => {
+                out.push("P".to_string());
+                break;
+            }
+        }
+    }
+    out.join(",")
+}
+
 pub fn run(words: &[&str]) -> String {
     let words: Vec<String> = words.iter().map(|s| s.to_string()).collect();
     let res = catch_unwind(AssertUnwindSafe(|| {
@@ -277,6 +361,7 @@ pub fn run(words: &[&str]) -> String {
             }
             [k, seed, depth, iters, calls] if k == "pct" => run_pct(seed, depth, iters, calls),
             [k, seed, target, allow, steps, calls] if k == "rtarget" => run_rtarget(seed, target, allow, steps, calls),
+            [k, seed, iters, tasks, calls] if k == "urw" => run_urw(seed, iters, tasks, calls),
             _ => "ERR bad case".to_string(),
         })
     }));
